@@ -68,6 +68,10 @@ func (ex *Exec) setupHavocCalls(env *SpecEnv, c *Contract, fn *ssa.Function) {
 		ex.Kept = append(ex.Kept, kf)
 	}
 	ex.HavocCallsC = &Contract{Key: "havoccalls", HavocAll: true, HavocExceptKeys: keys, Trusted: true, Allocates: true, Loops: map[int]*LoopSpec{}}
+	ex.AbstractNames = map[string]bool{}
+	for _, n := range c.AbstractCalls {
+		ex.AbstractNames[n] = true
+	}
 }
 
 // havocCall abstracts one call: whole-heap havoc except the kept fields, fresh results.
@@ -136,6 +140,9 @@ func writesField(fn *ssa.Function, kf keptField) (bool, string) {
 		for _, in := range b.Instrs {
 			switch in := in.(type) {
 			case *ssa.Store:
+				if storesToFreshObject(in.Addr) {
+					continue // initialisation of an object allocated in this function: no existing object is written
+				}
 				if fa, ok := in.Addr.(*ssa.FieldAddr); ok {
 					if pt, ok := fa.X.Type().Underlying().(*types.Pointer); ok && types.Identical(pt.Elem(), kf.owner) && fa.Field == kf.index {
 						return true, "store to the field"
@@ -265,4 +272,25 @@ func (fx *fnExec) tryInline(callee *ssa.Function, args []Val, st *State) (v Val,
 	rv, out := ex.runFunc(callee, args, nil, st, false, nil)
 	*st = *out
 	return rv, true
+}
+
+// storesToFreshObject: the address is (a field or element chain of) an object allocated by `new` or a
+// composite literal in the same function.
+func storesToFreshObject(addr ssa.Value) bool {
+	for i := 0; i < 6; i++ {
+		switch a := addr.(type) {
+		case *ssa.Alloc:
+			return a.Heap
+		case *ssa.FieldAddr:
+			addr = a.X
+		case *ssa.IndexAddr:
+			if _, isPtr := a.X.Type().Underlying().(*types.Pointer); !isPtr {
+				return false // element of a slice: the backing array may be shared
+			}
+			addr = a.X
+		default:
+			return false
+		}
+	}
+	return false
 }
